@@ -15,30 +15,27 @@ func evalOperator(d *dataTreeNavigator, context Context, expressionNode *Express
 	}
 	evalContext := context
 	evalContext.evalDepth++
-	pathExpStrResults, err := d.GetMatchingNodes(context.ReadOnlyClone(), expressionNode.RHS)
-	if err != nil {
-		return Context{}, err
-	}
 
-	expressions := make([]*ExpressionNode, pathExpStrResults.MatchingNodes.Len())
-	expIndex := 0
-	//parse every expression
-	for pathExpStrEntry := pathExpStrResults.MatchingNodes.Front(); pathExpStrEntry != nil; pathExpStrEntry = pathExpStrEntry.Next() {
-		expressionStrCandidate := pathExpStrEntry.Value.(*CandidateNode)
+	results := list.New()
 
-		expressions[expIndex], err = ExpressionParser.ParseExpression(expressionStrCandidate.Value)
+	// every context node is handled on its own: its expressions are what the argument yields for it, and they
+	// are evaluated against it (not against all context nodes once more for each of them)
+	for matchEl := context.MatchingNodes.Front(); matchEl != nil; matchEl = matchEl.Next() {
+		single := evalContext.SingleChildContext(matchEl.Value.(*CandidateNode))
+		pathExpStrResults, err := d.GetMatchingNodes(single.ReadOnlyClone(), expressionNode.RHS)
 		if err != nil {
 			return Context{}, err
 		}
 
-		expIndex++
-	}
+		for pathExpStrEntry := pathExpStrResults.MatchingNodes.Front(); pathExpStrEntry != nil; pathExpStrEntry = pathExpStrEntry.Next() {
+			expressionStrCandidate := pathExpStrEntry.Value.(*CandidateNode)
 
-	results := list.New()
+			expression, err := ExpressionParser.ParseExpression(expressionStrCandidate.Value)
+			if err != nil {
+				return Context{}, err
+			}
 
-	for matchEl := context.MatchingNodes.Front(); matchEl != nil; matchEl = matchEl.Next() {
-		for expIndex = 0; expIndex < len(expressions); expIndex++ {
-			result, err := d.GetMatchingNodes(evalContext, expressions[expIndex])
+			result, err := d.GetMatchingNodes(single, expression)
 			if err != nil {
 				return Context{}, err
 			}
